@@ -89,97 +89,403 @@ theorem hasPermission_of_ne {u : User} {perm : String} (hne : perm ≠ "") :
     hasPermission u perm = someMatch u perm := by
   simp [hasPermission, someMatch_eq, hne]
 
-/-- The heart of the matter: with a matching entry, an object that passes the OR of the matching
-    entries' filters (or the null filter when none of them has one) is allowed. -/
-theorem permFilterFn_allowed {u : User} {perm : String} {o : Obj} (hne : perm ≠ "")
-    (hm : someMatch u perm = true) (hpf : permFilterFn u perm o = true) : Allowed u perm o := by
-  unfold permFilterFn at hpf
+theorem mem_permissionFilters {u : User} {perm : String} {f : PFilter} (h : f ∈ permissionFilters u perm) :
+    ∃ p ∈ u, permMatches perm p = true ∧ p.filter = some f := by
+  unfold permissionFilters at h
+  split at h
+  · cases h
+  · obtain ⟨p, hp, hpf⟩ := List.mem_filterMap.1 h
+    obtain ⟨hpu, hpm⟩ := List.mem_filter.1 hp
+    exact ⟨p, hpu, hpm, hpf⟩
+
+theorem orAny_true : ∀ (fs : List PFilter) (b : Option Obj) (o : Obj), orAny fs b o = some true →
+    ∃ f ∈ fs, f b o = some true
+  | [], _, _, h => by simp [orAny] at h
+  | f :: fs, b, o, h => by
+    simp only [orAny] at h
+    cases hf : f b o with
+    | none => simp [hf] at h
+    | some v =>
+      cases v with
+      | true => exact ⟨f, List.mem_cons_self, hf⟩
+      | false =>
+        simp only [hf] at h
+        obtain ⟨g, hg, hgo⟩ := orAny_true fs b o h
+        exact ⟨g, List.mem_cons_of_mem _ hg, hgo⟩
+
+/-- The heart of the matter: with a matching entry, an object on which — evaluated alone — the OR of the
+    matching entries' filters is true (or the filter is null because none of them has one) is allowed. -/
+theorem pfIso_allowed {u : User} {perm : String} {o : Obj} (hne : perm ≠ "")
+    (hm : someMatch u perm = true) (hpf : pfIso (permissionFilters u perm) o = some true) :
+    Allowed u perm o := by
+  unfold pfIso pfVal at hpf
   have hne' : (perm == "") = false := by simp [hne]
-  cases hfs : permissionFilters u perm with
-  | nil =>
-    -- no matching entry carries a filter: any matching entry grants
+  by_cases hfs : (permissionFilters u perm).isEmpty = true
+  · -- no matching entry carries a filter: any matching entry grants
     rw [someMatch_eq, List.any_eq_true] at hm
     obtain ⟨p, hp, hpm⟩ := hm
     refine ⟨p, hp, hpm, Or.inl ?_⟩
-    simp only [permissionFilters, hne', Bool.false_eq_true, if_false] at hfs
+    have hnil : permissionFilters u perm = [] := List.isEmpty_iff.1 hfs
+    simp only [permissionFilters, hne', Bool.false_eq_true, if_false] at hnil
     cases hpf' : p.filter with
     | none => rfl
     | some f =>
       have : f ∈ (u.filter (permMatches perm)).filterMap (·.filter) :=
         List.mem_filterMap.2 ⟨p, List.mem_filter.2 ⟨hp, hpm⟩, hpf'⟩
-      rw [hfs] at this
+      rw [hnil] at this
       cases this
-  | cons f0 fs =>
-    rw [hfs] at hpf
-    simp only [List.any_eq_true] at hpf
-    obtain ⟨f, hf, hfo⟩ := hpf
-    rw [← hfs] at hf
-    simp only [permissionFilters, hne', Bool.false_eq_true, if_false] at hf
-    obtain ⟨p, hp, hpf'⟩ := List.mem_filterMap.1 hf
-    obtain ⟨hpu, hpm⟩ := List.mem_filter.1 hp
+  · simp only [hfs, Bool.false_eq_true, if_false] at hpf
+    obtain ⟨f, hf, hfo⟩ := orAny_true _ _ _ hpf
+    obtain ⟨p, hpu, hpm, hpf'⟩ := mem_permissionFilters hf
     exact ⟨p, hpu, hpm, Or.inr ⟨f, hpf', hfo⟩⟩
+
+/-! ### the permission frame -/
+
+/-- What the frame can hold: nothing, or a Service that the request was able to visit. -/
+def StInv (types : List String) (st : Option Obj) : Prop :=
+  ∀ s, st = some s → s.type = "Service" ∧ "Service" ∈ types
+
+theorem StInv_none (types : List String) : StInv types none := by
+  intro s h; cases h
+
+theorem bindSvc_service {st : Option Obj} {o : Obj} (h : o.type = "Service") : bindSvc st o = some o := by
+  simp [bindSvc, h]
+
+theorem bindSvc_other {st : Option Obj} {o : Obj} (h : o.type ≠ "Service") : bindSvc st o = st := by
+  simp [bindSvc, h]
+
+theorem StInv_frameFor {types : List String} {shared : Bool} {st : Option Obj} {o : Obj}
+    (hst : StInv types st) (ho : o.type ∈ types) : StInv types (frameFor shared st o) := by
+  unfold frameFor
+  by_cases hs : o.type = "Service"
+  · rw [bindSvc_service hs]
+    intro s h
+    cases h
+    exact ⟨hs, hs ▸ ho⟩
+  · rw [bindSvc_other hs]
+    cases shared with
+    | true => simpa using hst
+    | false => simpa using StInv_none types
+
+theorem orAny_indep : ∀ (fs : List PFilter) (st : Option Obj) (o : Obj),
+    (∀ f ∈ fs, ∀ st o, f (bindSvc st o) o = f (bindSvc none o) o) →
+    orAny fs (bindSvc st o) o = orAny fs (bindSvc none o) o
+  | [], _, _, _ => rfl
+  | f :: fs, st, o, h => by
+    simp only [orAny]
+    rw [h f List.mem_cons_self st o, orAny_indep fs st o (fun g hg => h g (List.mem_cons_of_mem _ hg))]
+
+/-- Under `IsoVisit` the permission filter of a visited object has the value it has on the object alone. -/
+theorem pfVal_iso {u : User} {perm : String} {shared : Bool} {types : List String} {st : Option Obj} {o : Obj}
+    (hiso : IsoVisit shared types u) (hst : StInv types st) (ho : o.type ∈ types) :
+    pfVal (permissionFilters u perm) (frameFor shared st o) o = pfIso (permissionFilters u perm) o := by
+  unfold pfIso
+  rcases hiso with h | h | h | h
+  · simp [frameFor, h]
+  · unfold frameFor pfVal
+    split
+    · rfl
+    · apply orAny_indep
+      intro f hf
+      obtain ⟨p, hpu, _, hpf⟩ := mem_permissionFilters hf
+      exact h p hpu f hpf
+  · have hnone : st = none := by
+      cases hs : st with
+      | none => rfl
+      | some s => exact absurd rfl (h "Service" (hst s hs).2)
+    subst hnone
+    cases shared <;> simp [frameFor]
+  · have hs : o.type = "Service" := h _ ho
+    simp [frameFor, bindSvc_service hs]
 
 /-! ### the by-name part -/
 
 theorem lookup_mem {inv : Inventory} {t n : String} {o : Obj} (h : lookup inv t n = some o) : o ∈ inv :=
   List.mem_of_find?_eq_some h
 
-theorem runNamed_ok (pf : Obj → Bool) (inv : Inventory) :
-    ∀ (steps : List Step) (objs : List Obj), (runNamed pf inv steps).1 = .ok objs →
-      ∀ o ∈ objs, pf o = true ∧ o ∈ inv
-  | [], objs, h => by
-    simp only [runNamed] at h
+theorem lookup_type {inv : Inventory} {t n : String} {o : Obj} (h : lookup inv t n = some o) : o.type = t := by
+  have := List.find?_some h
+  simp only [Bool.and_eq_true, beq_iff_eq] at this
+  exact this.1
+
+theorem mem_namedSteps_type {types : List String} {q : Query} {t n : String}
+    (h : Step.get t n ∈ namedSteps types q) : t ∈ types := by
+  unfold namedSteps at h
+  obtain ⟨t', ht', hmem⟩ := List.mem_flatMap.1 h
+  have : t = t' := by
+    simp only [List.mem_append, List.mem_cons, List.not_mem_nil, or_false] at hmem
+    rcases hmem with (hm | hm) | hm
+    · cases hq : q.single.lookup t' with
+      | none => simp [hq] at hm
+      | some n' => simp [hq] at hm; exact hm.1
+    · cases hm
+    · cases hq : q.plural.lookup t' with
+      | none => simp [hq] at hm
+      | some ns => simp [hq] at hm; obtain ⟨_, _, rfl⟩ := hm; rfl
+  exact this ▸ ht'
+
+section
+variable {u : User} {perm : String} {shared : Bool} {types : List String} (inv : Inventory)
+
+theorem runNamed_ok (hiso : IsoVisit shared types u) :
+    ∀ (steps : List Step) (st : Option Obj) (objs : List Obj),
+      (∀ t n, Step.get t n ∈ steps → t ∈ types) → StInv types st →
+      (runNamed shared (permissionFilters u perm) inv steps st).result = .ok objs →
+      (∀ o ∈ objs, pfIso (permissionFilters u perm) o = some true ∧ o ∈ inv) ∧
+      StInv types (runNamed shared (permissionFilters u perm) inv steps st).frame
+  | [], st, objs, _, hst, h => by
+    simp only [runNamed] at h ⊢
     cases h
-    intro o ho; cases ho
-  | .plural t :: rest, objs, h => by
-    simp only [runNamed] at h
-    exact runNamed_ok pf inv rest objs h
-  | .get t n :: rest, objs, h => by
-    simp only [runNamed] at h
+    exact ⟨fun o ho => (by cases ho), hst⟩
+  | .plural t :: rest, st, objs, hty, hst, h => by
+    simp only [runNamed] at h ⊢
+    exact runNamed_ok hiso rest st objs (fun t n hm => hty t n (List.mem_cons_of_mem _ hm)) hst h
+  | .get t n :: rest, st, objs, hty, hst, h => by
+    simp only [runNamed] at h ⊢
     cases hl : lookup inv t n with
     | none => simp [hl] at h
     | some o' =>
-      simp only [hl] at h
-      by_cases hp : pf o' = true
-      · simp only [hp, if_true] at h
-        cases hr : (runNamed pf inv rest).1 with
-        | error e => simp [hr, Except.map] at h
-        | ok objs' =>
-          simp only [hr, Except.map] at h
-          cases h
-          intro o ho
-          rcases List.mem_cons.1 ho with rfl | ho
-          · exact ⟨hp, lookup_mem hl⟩
-          · exact runNamed_ok pf inv rest objs' hr o ho
-      · simp [hp] at h
+      simp only [hl] at h ⊢
+      have ho' : o'.type ∈ types := lookup_type hl ▸ hty t n List.mem_cons_self
+      have hv := pfVal_iso (perm := perm) hiso hst ho'
+      have hst' := StInv_frameFor (shared := shared) hst ho'
+      cases hp : pfVal (permissionFilters u perm) (frameFor shared st o') o' with
+      | none => simp [hp] at h
+      | some v =>
+        cases v with
+        | false => simp [hp] at h
+        | true =>
+          simp only [hp] at h ⊢
+          cases hr : (runNamed shared (permissionFilters u perm) inv rest (frameFor shared st o')).result with
+          | error e => simp [hr, Except.map] at h
+          | ok objs' =>
+            simp only [hr, Except.map] at h
+            cases h
+            have ih := runNamed_ok hiso rest _ objs' (fun t n hm => hty t n (List.mem_cons_of_mem _ hm)) hst' hr
+            refine ⟨?_, ih.2⟩
+            intro o ho
+            rcases List.mem_cons.1 ho with rfl | ho
+            · exact ⟨hv ▸ hp, lookup_mem hl⟩
+            · exact ih.1 o ho
 
-/-- A named request for an existing object that fails the permission filter makes the whole call fail. -/
-theorem runNamed_forbidden (pf : Obj → Bool) (inv : Inventory) :
-    ∀ (steps : List Step) (t n : String) (o : Obj), Step.get t n ∈ steps → lookup inv t n = some o →
-      pf o = false → ∃ e, (runNamed pf inv steps).1 = .error e
-  | [], _, _, _, hmem, _, _ => by cases hmem
-  | .plural t' :: rest, t, n, o, hmem, hl, hp => by
+/-- A named request for an existing object whose filter — evaluated alone — is not true makes the whole
+    call fail. -/
+theorem runNamed_forbidden (hiso : IsoVisit shared types u) :
+    ∀ (steps : List Step) (st : Option Obj) (t n : String) (o : Obj),
+      (∀ t n, Step.get t n ∈ steps → t ∈ types) → StInv types st →
+      Step.get t n ∈ steps → lookup inv t n = some o →
+      pfIso (permissionFilters u perm) o ≠ some true →
+      ∃ e, (runNamed shared (permissionFilters u perm) inv steps st).result = .error e
+  | [], _, _, _, _, _, _, hmem, _, _ => by cases hmem
+  | .plural t' :: rest, st, t, n, o, hty, hst, hmem, hl, hp => by
     simp only [runNamed]
     rcases List.mem_cons.1 hmem with h | h
     · cases h
-    · exact runNamed_forbidden pf inv rest t n o h hl hp
-  | .get t' n' :: rest, t, n, o, hmem, hl, hp => by
+    · exact runNamed_forbidden hiso rest st t n o (fun t n hm => hty t n (List.mem_cons_of_mem _ hm)) hst h hl hp
+  | .get t' n' :: rest, st, t, n, o, hty, hst, hmem, hl, hp => by
     simp only [runNamed]
     cases hl' : lookup inv t' n' with
     | none => exact ⟨_, rfl⟩
     | some o' =>
-      by_cases hp' : pf o' = true
-      · simp only [hp', if_true]
-        rcases List.mem_cons.1 hmem with h | h
-        · cases h
-          rw [hl] at hl'
-          cases hl'
-          rw [hp] at hp'
-          cases hp'
-        · obtain ⟨e, he⟩ := runNamed_forbidden pf inv rest t n o h hl hp
-          exact ⟨e, by simp [he, Except.map]⟩
-      · simp only [hp', Bool.false_eq_true, if_false]
-        exact ⟨_, rfl⟩
+      simp only
+      have ho' : o'.type ∈ types := lookup_type hl' ▸ hty t' n' List.mem_cons_self
+      have hv := pfVal_iso (perm := perm) hiso hst ho'
+      have hst' := StInv_frameFor (shared := shared) hst ho'
+      cases hp' : pfVal (permissionFilters u perm) (frameFor shared st o') o' with
+      | none => exact ⟨_, rfl⟩
+      | some v =>
+        cases v with
+        | false => exact ⟨_, rfl⟩
+        | true =>
+          simp only
+          rcases List.mem_cons.1 hmem with h | h
+          · cases h
+            rw [hl] at hl'
+            cases hl'
+            exact absurd (hv ▸ hp') hp
+          · obtain ⟨e, he⟩ := runNamed_forbidden hiso rest _ t n o
+              (fun t n hm => hty t n (List.mem_cons_of_mem _ hm)) hst' h hl hp
+            exact ⟨e, by simp [he, Except.map]⟩
+
+/-! ### the filter / whole-type part -/
+
+theorem visitAll_ok (hiso : IsoVisit shared types u) (uf : Obj → Option Bool) :
+    ∀ (l : List Obj) (st : Option Obj) (objs : List Obj),
+      (∀ o ∈ l, o.type ∈ types) → StInv types st →
+      visitAll shared (permissionFilters u perm) uf l st = .ok objs →
+      ∀ o ∈ objs, pfIso (permissionFilters u perm) o = some true ∧ o ∈ l
+  | [], _, objs, _, _, h => by
+    simp only [visitAll] at h
+    cases h
+    intro o ho; cases ho
+  | x :: rest, st, objs, hty, hst, h => by
+    simp only [visitAll] at h
+    have hx : x.type ∈ types := hty x List.mem_cons_self
+    have hv := pfVal_iso (perm := perm) hiso hst hx
+    have hst' := StInv_frameFor (shared := shared) hst hx
+    have hty' : ∀ o ∈ rest, o.type ∈ types := fun o ho => hty o (List.mem_cons_of_mem _ ho)
+    cases hp : pfVal (permissionFilters u perm) (frameFor shared st x) x with
+    | none => simp [hp] at h
+    | some v =>
+      cases v with
+      | false =>
+        simp only [hp] at h
+        have ih := visitAll_ok hiso uf rest _ objs hty' hst' h
+        intro o ho
+        exact ⟨(ih o ho).1, List.mem_cons_of_mem _ (ih o ho).2⟩
+      | true =>
+        simp only [hp] at h
+        cases hu : uf x with
+        | none => simp [hu] at h
+        | some b =>
+          simp only [hu] at h
+          cases hr : visitAll shared (permissionFilters u perm) uf rest (frameFor shared st x) with
+          | error e => simp [hr, Except.map] at h
+          | ok objs' =>
+            simp only [hr, Except.map] at h
+            cases h
+            have ih := visitAll_ok hiso uf rest _ objs' hty' hst' hr
+            intro o ho
+            cases b with
+            | false =>
+              simp only [Bool.false_eq_true, if_false] at ho
+              exact ⟨(ih o ho).1, List.mem_cons_of_mem _ (ih o ho).2⟩
+            | true =>
+              simp only [if_true] at ho
+              rcases List.mem_cons.1 ho with rfl | ho
+              · exact ⟨hv ▸ hp, List.mem_cons_self⟩
+              · exact ⟨(ih o ho).1, List.mem_cons_of_mem _ (ih o ho).2⟩
+
+/-- Under `IsoVisit` the frame in which an enumeration starts is irrelevant. -/
+theorem visitAll_frame_irrel (hiso : IsoVisit shared types u) (uf : Obj → Option Bool) :
+    ∀ (l : List Obj) (st st' : Option Obj),
+      (∀ o ∈ l, o.type ∈ types) → StInv types st → StInv types st' →
+      visitAll shared (permissionFilters u perm) uf l st = visitAll shared (permissionFilters u perm) uf l st'
+  | [], _, _, _, _, _ => rfl
+  | x :: rest, st, st', hty, hst, hst' => by
+    have hx : x.type ∈ types := hty x List.mem_cons_self
+    have hty' : ∀ o ∈ rest, o.type ∈ types := fun o ho => hty o (List.mem_cons_of_mem _ ho)
+    simp only [visitAll]
+    rw [pfVal_iso (perm := perm) hiso hst hx, pfVal_iso (perm := perm) hiso hst' hx,
+      visitAll_frame_irrel hiso uf rest _ _ hty' (StInv_frameFor (shared := shared) hst hx)
+        (StInv_frameFor (shared := shared) hst' hx)]
+
+end
+
+theorem ofType_type {inv : Inventory} {t : String} {o : Obj} (h : o ∈ ofType inv t) : o.type = t := by
+  have := (List.mem_filter.1 h).2
+  simpa using this
+
+theorem phase2_ok {u : User} {perm : String} (qd : QD) (q : Query) (inv : Inventory) (st : Option Obj)
+    (objs : List Obj) (hiso : IsoVisit qd.sharedFrame qd.types u) (hst : StInv qd.types st)
+    (h : (phase2 (permissionFilters u perm) qd q inv st).1 = .ok objs) :
+    ∀ o ∈ objs, pfIso (permissionFilters u perm) o = some true ∧ o ∈ inv := by
+  unfold phase2 at h
+  cases ht : q.type with
+  | none => simp [ht] at h
+  | some t =>
+    simp only [ht] at h
+    by_cases hv : q.typeValid = true
+    · by_cases hc : qd.types.contains t = true
+      · have htm : t ∈ qd.types := by simpa using hc
+        simp only [hv, hc, Bool.not_true, Bool.false_eq_true, if_false] at h
+        have hof : ∀ o ∈ ofType inv t, o.type ∈ qd.types := fun o ho => ofType_type ho ▸ htm
+        cases hf : q.filter with
+        | none =>
+          simp only [hf] at h
+          intro o ho
+          have := visitAll_ok (perm := perm) hiso _ _ st objs hof hst h o ho
+          exact ⟨this.1, (List.mem_filter.1 this.2).1⟩
+        | some uf =>
+          simp only [hf] at h
+          cases hfast : fastNames qd t uf with
+          | some names =>
+            simp only [hfast] at h
+            have hl : ∀ o ∈ names.filterMap (lookup inv t), o.type ∈ qd.types := by
+              intro o ho
+              obtain ⟨n, _, hn⟩ := List.mem_filterMap.1 ho
+              exact lookup_type hn ▸ htm
+            intro o ho
+            have := visitAll_ok (perm := perm) hiso _ _ st objs hl hst h o ho
+            obtain ⟨n, _, hn⟩ := List.mem_filterMap.1 this.2
+            exact ⟨this.1, lookup_mem hn⟩
+          | none =>
+            simp only [hfast] at h
+            intro o ho
+            have := visitAll_ok (perm := perm) hiso _ _ st objs hof hst h o ho
+            exact ⟨this.1, (List.mem_filter.1 this.2).1⟩
+      · have hc' : t ∉ qd.types := by simpa using hc
+        simp [hv, hc'] at h
+    · simp [hv] at h
+
+theorem phase2_frame_irrel {u : User} {perm : String} (qd : QD) (q : Query) (inv : Inventory) (st st' : Option Obj)
+    (hiso : IsoVisit qd.sharedFrame qd.types u) (hst : StInv qd.types st) (hst' : StInv qd.types st') :
+    phase2 (permissionFilters u perm) qd q inv st = phase2 (permissionFilters u perm) qd q inv st' := by
+  unfold phase2
+  cases ht : q.type with
+  | none => rfl
+  | some t =>
+    simp only
+    by_cases hv : q.typeValid = true
+    · by_cases hc : qd.types.contains t = true
+      · have htm : t ∈ qd.types := by simpa using hc
+        have hof : ∀ o ∈ ofType inv t, o.type ∈ qd.types := fun o ho => ofType_type ho ▸ htm
+        simp only [hv, hc, Bool.not_true, Bool.false_eq_true, if_false]
+        cases hf : q.filter with
+        | none =>
+          simp only
+          rw [visitAll_frame_irrel (perm := perm) hiso _ _ st st' hof hst hst']
+        | some uf =>
+          simp only
+          cases hfast : fastNames qd t uf with
+          | some names =>
+            have hl : ∀ o ∈ names.filterMap (lookup inv t), o.type ∈ qd.types := by
+              intro o ho
+              obtain ⟨n, _, hn⟩ := List.mem_filterMap.1 ho
+              exact lookup_type hn ▸ htm
+            simp only
+            rw [visitAll_frame_irrel (perm := perm) hiso _ _ st st' hl hst hst']
+          | none =>
+            simp only
+            rw [visitAll_frame_irrel (perm := perm) hiso _ _ st st' hof hst hst']
+      · have hc' : t ∉ qd.types := by simpa using hc
+        simp [hv, hc']
+    · simp [hv]
+
+/-- Under `IsoVisit`, everything `filterTargets` returns passed the permission filter evaluated on the object
+    alone, and is a registered object. -/
+theorem filterTargets_ok (u : User) (qd : QD) (q : Query) (inv : Inventory) (objs : List Obj)
+    (hiso : IsoVisit qd.sharedFrame qd.types u)
+    (h : (filterTargets u qd q inv).result = .ok objs) :
+    hasPermission u qd.permission = true ∧
+    ∀ o ∈ objs, pfIso (permissionFilters u qd.permission) o = some true ∧ o ∈ inv := by
+  unfold filterTargets at h
+  by_cases hp : hasPermission u qd.permission = true
+  · refine ⟨hp, ?_⟩
+    simp only [hp, Bool.not_true, Bool.false_eq_true, if_false] at h
+    cases h1 : (runNamed qd.sharedFrame (permissionFilters u qd.permission) inv (namedSteps qd.types q) none).result with
+    | error e => simp [h1] at h
+    | ok named =>
+      simp only [h1] at h
+      have hnamed := runNamed_ok (perm := qd.permission) inv hiso _ none named
+        (fun t n hm => mem_namedSteps_type hm) (StInv_none _) h1
+      by_cases hc : (q.filter.isSome || named.isEmpty) = true
+      · simp only [hc, if_true] at h
+        cases h2 : (phase2 (permissionFilters u qd.permission) qd q inv
+            (runNamed qd.sharedFrame (permissionFilters u qd.permission) inv (namedSteps qd.types q) none).frame).1 with
+        | error e => simp [h2] at h
+        | ok found =>
+          simp only [h2] at h
+          cases h
+          have hfound := phase2_ok qd q inv _ found hiso hnamed.2 h2
+          intro o ho
+          rcases List.mem_append.1 ho with ho | ho
+          · exact hnamed.1 o ho
+          · exact hfound o ho
+      · simp only [hc, Bool.false_eq_true, if_false] at h
+        cases h
+        exact hnamed.1
+  · simp [hp] at h
 
 theorem mem_namedSteps_of_request {types : List String} {q : Query} {t n : String}
     (h : (t, n) ∈ namedRequests types q) : Step.get t n ∈ namedSteps types q := by
@@ -189,122 +495,145 @@ theorem mem_namedSteps_of_request {types : List String} {q : Query} {t n : Strin
   | get t' n' => simp at hs; obtain ⟨rfl, rfl⟩ := hs; exact hst
   | plural _ => simp at hs
 
-/-! ### the filter / whole-type part -/
-
-theorem evalFilter_ok (pf : Obj → Bool) (uf : Obj → Option Bool) :
-    ∀ (l objs : List Obj), evalFilter pf uf l = .ok objs → ∀ o ∈ objs, pf o = true ∧ o ∈ l
-  | [], objs, h => by
-    simp only [evalFilter] at h
-    cases h
-    intro o ho; cases ho
-  | x :: rest, objs, h => by
-    simp only [evalFilter] at h
-    by_cases hp : pf x = true
-    · simp only [hp, if_true] at h
-      cases hu : uf x with
-      | none => simp [hu] at h
-      | some b =>
-        simp only [hu] at h
-        cases hr : evalFilter pf uf rest with
-        | error e => simp [hr, Except.map] at h
-        | ok objs' =>
-          simp only [hr, Except.map] at h
-          cases h
-          have ih := evalFilter_ok pf uf rest objs' hr
-          intro o ho
-          cases b with
-          | false =>
-            simp only [Bool.false_eq_true, if_false] at ho
-            exact ⟨(ih o ho).1, List.mem_cons_of_mem _ (ih o ho).2⟩
-          | true =>
-            simp only [if_true] at ho
-            rcases List.mem_cons.1 ho with rfl | ho
-            · exact ⟨hp, List.mem_cons_self⟩
-            · exact ⟨(ih o ho).1, List.mem_cons_of_mem _ (ih o ho).2⟩
-    · simp only [hp, Bool.false_eq_true, if_false] at h
-      have ih := evalFilter_ok pf uf rest objs h
-      intro o ho
-      exact ⟨(ih o ho).1, List.mem_cons_of_mem _ (ih o ho).2⟩
-
-theorem phase2_ok (pf : Obj → Bool) (qd : QD) (q : Query) (inv : Inventory) (objs : List Obj)
-    (h : (phase2 pf qd q inv).1 = .ok objs) : ∀ o ∈ objs, pf o = true ∧ o ∈ inv := by
-  unfold phase2 at h
-  cases ht : q.type with
-  | none => simp [ht] at h
-  | some t =>
-    simp only [ht] at h
-    by_cases hv : q.typeValid = true
-    · by_cases hc : qd.types.contains t = true
-      · simp only [hv, hc, Bool.not_true, Bool.false_eq_true, if_false] at h
-        cases hf : q.filter with
-        | none =>
-          simp only [hf] at h
-          cases h
-          intro o ho
-          obtain ⟨ho1, ho2⟩ := List.mem_filter.1 ho
-          exact ⟨ho2, (List.mem_filter.1 ho1).1⟩
-        | some uf =>
-          simp only [hf] at h
-          cases hfast : fastNames qd t uf with
-          | some names =>
-            simp only [hfast] at h
-            cases h
-            intro o ho
-            obtain ⟨ho1, ho2⟩ := List.mem_filter.1 ho
-            obtain ⟨n, _, hn⟩ := List.mem_filterMap.1 ho1
-            exact ⟨ho2, lookup_mem hn⟩
-          | none =>
-            simp only [hfast] at h
-            intro o ho
-            have := evalFilter_ok pf uf.pred _ objs h o ho
-            exact ⟨this.1, (List.mem_filter.1 this.2).1⟩
-      · have hc' : t ∉ qd.types := by simpa using hc
-        simp [hv, hc'] at h
-    · simp [hv] at h
-
-/-- Everything `filterTargets` returns passed the permission filter and is a registered object. -/
-theorem filterTargets_ok (u : User) (qd : QD) (q : Query) (inv : Inventory) (objs : List Obj)
-    (h : (filterTargets u qd q inv).result = .ok objs) :
-    hasPermission u qd.permission = true ∧
-    ∀ o ∈ objs, permFilterFn u qd.permission o = true ∧ o ∈ inv := by
-  unfold filterTargets at h
-  by_cases hp : hasPermission u qd.permission = true
-  · refine ⟨hp, ?_⟩
-    simp only [hp, Bool.not_true, Bool.false_eq_true, if_false] at h
-    cases h1 : (runNamed (permFilterFn u qd.permission) inv (namedSteps qd.types q)).1 with
-    | error e => simp [h1] at h
-    | ok named =>
-      simp only [h1] at h
-      have hnamed := runNamed_ok _ inv _ named h1
-      by_cases hc : (q.filter.isSome || named.isEmpty) = true
-      · simp only [hc, if_true] at h
-        cases h2 : (phase2 (permFilterFn u qd.permission) qd q inv).1 with
-        | error e => simp [h2] at h
-        | ok found =>
-          simp only [h2] at h
-          cases h
-          have hfound := phase2_ok _ qd q inv found h2
-          intro o ho
-          rcases List.mem_append.1 ho with ho | ho
-          · exact hnamed o ho
-          · exact hfound o ho
-      · simp only [hc, Bool.false_eq_true, if_false] at h
-        cases h
-        exact hnamed
-  · simp [hp] at h
-
 theorem filterTargets_forbidden (u : User) (qd : QD) (q : Query) (inv : Inventory) (t n : String) (o : Obj)
+    (hiso : IsoVisit qd.sharedFrame qd.types u)
     (hreq : (t, n) ∈ namedRequests qd.types q) (hl : lookup inv t n = some o)
-    (hpf : permFilterFn u qd.permission o = false) :
+    (hpf : pfIso (permissionFilters u qd.permission) o ≠ some true) :
     ∃ e, (filterTargets u qd q inv).result = .error e := by
   unfold filterTargets
   by_cases hp : hasPermission u qd.permission = true
   · simp only [hp, Bool.not_true, Bool.false_eq_true, if_false]
-    obtain ⟨e, he⟩ := runNamed_forbidden (permFilterFn u qd.permission) inv _ t n o
-      (mem_namedSteps_of_request hreq) hl hpf
+    obtain ⟨e, he⟩ := runNamed_forbidden (perm := qd.permission) inv hiso _ none t n o
+      (fun t n hm => mem_namedSteps_type hm) (StInv_none _) (mem_namedSteps_of_request hreq) hl hpf
     simp only [he]
     exact ⟨e, rfl⟩
   · simp only [hp, Bool.not_false, if_true]
     exact ⟨_, rfl⟩
+
+/-! ### order of visit -/
+
+def stepOk (fs : List PFilter) (inv : Inventory) : Step → Bool
+  | .plural _ => true
+  | .get t n => match lookup inv t n with | some o => pfIso fs o == some true | none => false
+
+def stepObj (inv : Inventory) : Step → Option Obj
+  | .plural _ => none
+  | .get t n => lookup inv t n
+
+section
+variable {u : User} {perm : String} {shared : Bool} {types : List String} (inv : Inventory)
+
+theorem runNamed_all_ok (hiso : IsoVisit shared types u) :
+    ∀ (steps : List Step) (st : Option Obj),
+      (∀ t n, Step.get t n ∈ steps → t ∈ types) → StInv types st →
+      (∀ s ∈ steps, stepOk (permissionFilters u perm) inv s = true) →
+      (runNamed shared (permissionFilters u perm) inv steps st).result = .ok (steps.filterMap (stepObj inv)) ∧
+      StInv types (runNamed shared (permissionFilters u perm) inv steps st).frame
+  | [], st, _, hst, _ => ⟨rfl, hst⟩
+  | .plural t :: rest, st, hty, hst, h => by
+    simp only [runNamed, List.filterMap_cons, stepObj]
+    exact runNamed_all_ok hiso rest st (fun t n hm => hty t n (List.mem_cons_of_mem _ hm)) hst
+      (fun s hs => h s (List.mem_cons_of_mem _ hs))
+  | .get t n :: rest, st, hty, hst, h => by
+    have h0 := h (.get t n) List.mem_cons_self
+    simp only [stepOk] at h0
+    cases hl : lookup inv t n with
+    | none => simp [hl] at h0
+    | some o =>
+      simp only [hl, beq_iff_eq] at h0
+      have ho : o.type ∈ types := lookup_type hl ▸ hty t n List.mem_cons_self
+      have hv := pfVal_iso (perm := perm) hiso hst ho
+      have ih := runNamed_all_ok hiso rest (frameFor shared st o)
+        (fun t n hm => hty t n (List.mem_cons_of_mem _ hm)) (StInv_frameFor (shared := shared) hst ho)
+        (fun s hs => h s (List.mem_cons_of_mem _ hs))
+      simp only [runNamed, hl, hv, h0, List.filterMap_cons, stepObj]
+      exact ⟨by simp [ih.1, Except.map], ih.2⟩
+
+theorem runNamed_some_bad (hiso : IsoVisit shared types u) :
+    ∀ (steps : List Step) (st : Option Obj),
+      (∀ t n, Step.get t n ∈ steps → t ∈ types) → StInv types st →
+      (∃ s ∈ steps, stepOk (permissionFilters u perm) inv s = false) →
+      ∃ e, (runNamed shared (permissionFilters u perm) inv steps st).result = .error e
+  | [], _, _, _, ⟨_, hs, _⟩ => by cases hs
+  | .plural t :: rest, st, hty, hst, ⟨s, hs, hb⟩ => by
+    simp only [runNamed]
+    rcases List.mem_cons.1 hs with rfl | hs
+    · simp [stepOk] at hb
+    · exact runNamed_some_bad hiso rest st (fun t n hm => hty t n (List.mem_cons_of_mem _ hm)) hst ⟨s, hs, hb⟩
+  | .get t n :: rest, st, hty, hst, ⟨s, hs, hb⟩ => by
+    simp only [runNamed]
+    cases hl : lookup inv t n with
+    | none => exact ⟨_, rfl⟩
+    | some o =>
+      simp only
+      have ho : o.type ∈ types := lookup_type hl ▸ hty t n List.mem_cons_self
+      have hv := pfVal_iso (perm := perm) hiso hst ho
+      cases hp : pfVal (permissionFilters u perm) (frameFor shared st o) o with
+      | none => exact ⟨_, rfl⟩
+      | some v =>
+        cases v with
+        | false => exact ⟨_, rfl⟩
+        | true =>
+          simp only
+          rcases List.mem_cons.1 hs with rfl | hs
+          · simp [stepOk, hl, ← hv, hp] at hb
+          · obtain ⟨e, he⟩ := runNamed_some_bad hiso rest (frameFor shared st o)
+              (fun t n hm => hty t n (List.mem_cons_of_mem _ hm)) (StInv_frameFor (shared := shared) hst ho) ⟨s, hs, hb⟩
+            exact ⟨e, by simp [he, Except.map]⟩
+
+end
+
+def finish (fs : List PFilter) (qd : QD) (q : Query) (inv : Inventory) (r : Named) : Except Err (List Obj) :=
+  match r.result with
+  | .error e => .error e
+  | .ok named =>
+    if q.filter.isSome || named.isEmpty then
+      match (phase2 fs qd q inv r.frame).1 with
+      | .error e => .error e
+      | .ok found => .ok (named ++ found)
+    else .ok named
+
+theorem filterTargets_result (u : User) (qd : QD) (q : Query) (inv : Inventory) :
+    (filterTargets u qd q inv).result =
+      if hasPermission u qd.permission then
+        finish (permissionFilters u qd.permission) qd q inv
+          (runNamed qd.sharedFrame (permissionFilters u qd.permission) inv (namedSteps qd.types q) none)
+      else .error .permission := by
+  unfold filterTargets finish
+  cases hasPermission u qd.permission with
+  | false => simp
+  | true =>
+    simp only [Bool.not_true, Bool.false_eq_true, if_false, if_true]
+    cases (runNamed qd.sharedFrame (permissionFilters u qd.permission) inv (namedSteps qd.types q) none).result with
+    | error e => rfl
+    | ok named =>
+      simp only
+      split
+      · cases (phase2 (permissionFilters u qd.permission) qd q inv _).1 <;> rfl
+      · rfl
+
+theorem phase2_congr (fs : List PFilter) (qd : QD) (q1 q2 : Query) (inv : Inventory) (st : Option Obj)
+    (ht : q1.type = q2.type) (hv : q1.typeValid = q2.typeValid) (hf : q1.filter = q2.filter) :
+    phase2 fs qd q1 inv st = phase2 fs qd q2 inv st := by
+  unfold phase2
+  rw [ht, hv, hf]
+
+theorem finish_same {u : User} {perm : String} (qd : QD) (q1 q2 : Query) (inv : Inventory) (r1 r2 : Named)
+    (hiso : IsoVisit qd.sharedFrame qd.types u)
+    (ht : q1.type = q2.type) (hv : q1.typeValid = q2.typeValid) (hf : q1.filter = q2.filter)
+    (l1 l2 : List Obj) (h1 : r1.result = .ok l1) (h2 : r2.result = .ok l2) (hp : l1.Perm l2)
+    (hs1 : StInv qd.types r1.frame) (hs2 : StInv qd.types r2.frame) :
+    sameOutcome (finish (permissionFilters u perm) qd q1 inv r1) (finish (permissionFilters u perm) qd q2 inv r2) = true := by
+  have he : l1.isEmpty = l2.isEmpty := by
+    cases l1 <;> cases l2 <;> simp_all
+  have hph : phase2 (permissionFilters u perm) qd q1 inv r1.frame = phase2 (permissionFilters u perm) qd q2 inv r2.frame := by
+    rw [phase2_congr _ qd q1 q2 inv _ ht hv hf]
+    exact phase2_frame_irrel qd q2 inv _ _ hiso hs1 hs2
+  simp only [finish, h1, h2, hph, hf, he]
+  split
+  · cases (phase2 (permissionFilters u perm) qd q2 inv r2.frame).1 with
+    | error e => rfl
+    | ok found => simp only [sameOutcome, List.isPerm_iff]; exact hp.append_right found
+  · simp only [sameOutcome, List.isPerm_iff]; exact hp
 
 end Icinga.C18
